@@ -129,7 +129,7 @@ impl<'a> TypeFn for SpecSweep<'a> {
         let rnd = |x: f64| if f32mode { (x as f32) as f64 } else { x };
         let tt = tables_for(self.tabs, &self.table.ty).ok_or("tables")?;
         let nderiv = tt.chain.nderiv;
-        let rf = Ref { tabs: self.tabs, tt, u };
+        let rf = Ref { tabs: self.tabs, tt, u, floor: false };
         let mut rng = Rng(self.seed ^ 0x5BEC1A1 ^ ((T::KEY.len() as u64) << 24));
         let (fns, points): (Vec<&str>, Vec<f64>) = match self.what {
             "sph" => (vec!["sph_j0", "sph_j1", "sph_j2"], sph_points(f32mode)),
